@@ -59,6 +59,8 @@ std::string sig_from_report(const std::string& text) {
     if (text.find("READ of size", a) != std::string::npos) kind += "-read"; else if (text.find("WRITE of size", a) != std::string::npos) kind += "-write";
   } else if ((a = text.find("runtime error: ")) != std::string::npos) {
     size_t e = text.find('\n', a); std::string m = text.substr(a + 15, std::min<size_t>(50, e - a - 15));
+    // numbers and addresses (0x...) are not part of the signature
+    { std::string t; for (size_t i = 0; i < m.size(); ++i) { if (m[i] == '0' && i + 1 < m.size() && m[i + 1] == 'x') { i += 2; while (i < m.size() && isxdigit(static_cast<unsigned char>(m[i]))) ++i; --i; t += 'N'; } else t += m[i]; } m = t; }
     for (auto& ch : m) if (isdigit(static_cast<unsigned char>(ch))) ch = 'N';
     std::string sq; for (char ch : m) { if (ch == ' ') ch = '_'; if (!(ch == 'N' && !sq.empty() && sq.back() == 'N')) sq += ch; }
     kind = "ubsan:" + sq;
@@ -127,6 +129,10 @@ struct Finding { std::string key, msg; };
 void prop(const Case& cs) {
   int f = static_cast<int>(cs.get("fam", 0) % fam::NFAM);
   const char* fn = fam::name(f);
+  {  // development aid: VF_FAMS="3,4" restricts a run to some families (never set by MANIFEST commands)
+    static const std::string only = vf::env("VF_FAMS");
+    if (!only.empty() && ("," + only + ",").find("," + std::to_string(f) + ",") == std::string::npos) return;
+  }
   fam::P obj0 = fam::make(cs);
   int nv = obj0->variants();
   int variant = static_cast<int>(cs.get("variant", 0) % nv);
